@@ -15,9 +15,15 @@ import sys
 import numpy as np
 
 from vlib.core import Result, pmap, merge_results, run_hypothesis, quiet, REPO, SEED, VERIF_DIR, HarnessError
+from vlib.grids import scribble
 from vlib.hashing import value_hash, GETTERS, call_getter, make_grid
 
 POLY = ("ico", "cube3D", "cube4D")
+
+
+# get_grid_as_array() of a sphere grid hands out the grid's own array (editing it edits the grid): the caller-edit step
+# leaves these alone; every other getter returns an object that belongs to the caller
+ALIASED_BY_DESIGN = {"array", "array_upper_view", "array_upper", "array_full"}
 
 
 def dim_of(alg):
@@ -89,7 +95,12 @@ class World:
                         self.flags.add("larger_grid_between_two_uses")
                         self.larger_since_use[spec] = False
                     called.add(name)
-                    got = value_hash(call_getter(obj, name))
+                    handed = call_getter(obj, name)
+                    got = value_hash(handed)
+                    if op.get("edit") and name not in ALIASED_BY_DESIGN:
+                        # the caller edits the object it was handed in place (unit conversion, masking)
+                        scribble(handed)
+                        self.flags.add("caller_edited_a_result_in_place")
                     want = self.refs[spec].get(name)
                     if got != want:
                         return [f"{spec[0]}_{spec[1]}.{name}: fingerprint {got} differs from the fresh-process reference {want} "
@@ -142,15 +153,15 @@ def _machine_shard(arg):
                 self._do({"op": "create", "spec": list(pool[i])})
 
             @precondition(lambda self: len(self.w.live) > 0)
-            @rule(obj=st.integers(0, 5), getter=st.integers(0, 8))
-            def getter(self, obj, getter):
-                self._do({"op": "getter", "obj": obj, "getter": getter})
+            @rule(obj=st.integers(0, 5), getter=st.integers(0, 8), edit=st.booleans())
+            def getter(self, obj, getter, edit):
+                self._do({"op": "getter", "obj": obj, "getter": getter, "edit": edit})
 
             @precondition(lambda self: len(self.w.live) > 0)
-            @rule(obj=st.integers(0, 5), getters=st.lists(st.integers(0, 8), min_size=2, max_size=6))
-            def getter_burst(self, obj, getters):
+            @rule(obj=st.integers(0, 5), getters=st.lists(st.integers(0, 8), min_size=2, max_size=6), edit=st.booleans())
+            def getter_burst(self, obj, getters, edit):
                 for gi in getters:  # several getters on one object, any order, repeats likely
-                    self._do({"op": "getter", "obj": obj, "getter": gi})
+                    self._do({"op": "getter", "obj": obj, "getter": gi, "edit": edit})
 
             @precondition(lambda self: len(self.w.created) > 0)
             @rule(i=st.integers(0, 50))
